@@ -40,7 +40,23 @@ def modulate(bits, amp, noise):
     return s
 
 
-def build(rng, nframes, amp, ratio, kind):
+def build_busy(rng, nframes):
+    """a long, busy buffer: strong frames with the minimum legal spacing and a few weak ones in between"""
+    def noise():
+        return rng.randrange(0, 3)
+    buf = [noise() for _ in range(260)]
+    exp = []
+    for k in range(nframes):
+        bits, good = gen_frame(rng)
+        amp = 318 if k % 9 == 4 else rng.choice([1331, 1433])
+        buf += modulate(bits, amp, noise)
+        if good:
+            exp.append(hex_of(bits))
+        buf += [noise() for _ in range(rng.randrange(240, 250))]
+    return buf, exp
+
+
+def build(rng, nframes, amp, ratio, kind, tail=None):
     """-> (samples as ints / DEN, expected hex list)"""
     c = int(amp * ratio)
 
@@ -51,9 +67,13 @@ def build(rng, nframes, amp, ratio, kind):
     for _ in range(nframes):
         bits, good = gen_frame(rng)
         buf += modulate(bits, amp, noise)
+        end = len(buf)
         if good:
             exp.append(hex_of(bits))
         buf += [noise() for _ in range(rng.randrange(240, 700))]
+    if tail is not None:
+        # the last frame is followed by only `tail` noise samples
+        buf = buf[:end] + [noise() for _ in range(tail)]
     return buf, exp
 
 
@@ -122,6 +142,22 @@ def cases(ctx):
         yield dict(op="demod - %d %s" % (DEN, s), real=("h:props.C19.run_demod", [buf, DEN, None]), pred=["pred_frames", e, 0],
                    tag="r%.2f-%s" % (ratio, kind), info=info, trivial=not exp)
         yield dict(op=None, real=("h:props.C19.run_demod", [buf, DEN, None]), pred=["pred_no_bad17"], tag="no-bad-df17", info=dict(amp=amp, ratio=0))
+    # a complete frame close to the end of the buffer
+    for tail in [0, 1, 2, 3, 10, 57, 112, 113, 114, 115, 200]:
+        for _ in range(ctx.n(3, 30)):
+            amp = rng.choice(amps)
+            buf, exp = build(rng, rng.randrange(1, 3), amp, rng.choice([0.0, 0.05, 0.1]), "uniform", tail=tail)
+            if len(buf) < 420:
+                continue
+            e = ",".join(exp) if exp else "-"
+            yield dict(op="demod - %d %s" % (DEN, ",".join(map(str, buf))), real=("h:props.C19.run_demod", [buf, DEN, None]),
+                       pred=["pred_frames", e, 0], tag="tail-%d" % tail, info=dict(amp=amp, ratio=0.0, tail=tail), trivial=not exp)
+    # long busy buffers (the noise floor must come from 100-microsecond windows)
+    for _ in range(ctx.n(4, 60)):
+        buf, exp = build_busy(rng, rng.randrange(130, 200))
+        e = ",".join(exp) if exp else "-"
+        yield dict(op="demod - %d %s" % (DEN, ",".join(map(str, buf))), real=("h:props.C19.run_demod", [buf, DEN, None]),
+                   pred=["pred_frames", e, 0], tag="busy", info=dict(amp=0, ratio=0.0))
     # random garbage buffers: never a bad DF17
     for _ in range(ctx.n(60, 2000)):
         n = rng.randrange(400, 3000)
